@@ -27,8 +27,9 @@ inductive El (α : Type)
   | moveTo (p : α) | lineTo (p : α) | quadTo (a p : α) | curveTo (a b p : α) | close
   deriving DecidableEq, Repr
 
-/-- `ConvertContourError` kinds reachable from `to_kurbo` -/
-inductive Err | tooMany
+/-- `ConvertContourError` kinds of `to_kurbo`: `TooManyOffCurves`, and `BadPoint` (not returned by the repaired code;
+    kept so that the translator of `tools/extract_kurbo_conv.py` can express a source that returns it) -/
+inductive Err | tooMany | badPoint
   deriving DecidableEq, Repr
 
 /-- `Contour::is_closed`: `points.first().is_none_or(|v| v.typ != Move)` -/
